@@ -163,6 +163,12 @@ def run_program(case):
         r = compare('later eval', out2, gk2, got2, ge2, None, None)
         if r:
             bad('leak-across-evals:' + r[0], r[1])
+        # ... and neither does another eval that is given no names mapping at all
+        out3 = eval_ref(case.get('src2', 'len([1, 2])'), {}, None)
+        gk3, got3, ge3 = eval_impl(case.get('src2', 'len([1, 2])'), None, None, use_names=False)
+        r = compare('later eval without names', out3, gk3, got3, ge3, None, None)
+        if r and not fails:
+            bad('leak-across-evals-without-names:' + r[0], r[1])
         return fails, info
 
     out = eval_ref(src, renv, ast_body)
